@@ -128,6 +128,9 @@ func callLabel(cc *ssa.CallCommon) string {
 	return "dyn"
 }
 
+// CallsIn is exported for the dump tool.
+func CallsIn(f *ssa.Function, glob string) []callSite { return callsIn(f, glob) }
+
 type callSite struct {
 	Fn    *ssa.Function
 	Instr ssa.CallInstruction
@@ -465,4 +468,69 @@ func whoMayWrite(c *core.Ctx, rule, fieldSpec string, allow map[string]string) [
 	}
 	c.Count("write_sites", len(real))
 	return real
+}
+
+// ensuresIf: on every exit matching exitSpec whose facts match cond, the
+// required facts hold. Returns the number of exits the condition selected.
+func ensuresIf(c *core.Ctx, rule, fnSpec, exitSpec, condName, cond string, reqs []Req) int {
+	f := fn(c, rule, fnSpec)
+	if f == nil {
+		return 0
+	}
+	a := c.E.Analyze(f)
+	exits, err := a.Exits(exitSpec)
+	if err != nil {
+		c.Undischarged(rule, short(fnSpec)+"|exits", err.Error())
+		return 0
+	}
+	n := 0
+	for _, r := range reqs {
+		construct := short(fnSpec) + "|" + exitSpec + " when " + condName + "|" + r.Name
+		var missing []string
+		witness := ""
+		n = 0
+		for _, ex := range exits {
+			if _, ok := ex.Facts.Has(cond); !ok {
+				continue
+			}
+			n++
+			if k, ok := ex.Facts.Has(r.Pat); ok {
+				witness = k
+			} else {
+				missing = append(missing, c.P.Pos(ex.Ret.Pos()))
+			}
+		}
+		if n == 0 {
+			c.Undischarged(rule, construct, "no exit satisfies the condition "+cond+": the path the rule is about no longer exists in this shape")
+			continue
+		}
+		if len(missing) == 0 {
+			c.OK(rule, construct, c.P.Pos(f.Pos()), fmt.Sprintf("on all %d such exits: %s", n, clip(witness)))
+		} else {
+			c.Fail(rule, construct, c.P.Pos(f.Pos()), fmt.Sprintf("exit(s) %s (%s) lack fact %q (%s) — %s", strings.Join(missing, ", "), condName, r.Pat, r.Name, r.Why))
+		}
+	}
+	return n
+}
+
+// ifaceMethods returns the methods of the named interface (including
+// embedded ones) whose name matches the glob.
+func ifaceMethods(c *core.Ctx, rule, ifaceSpec, glob string) []*types.Func {
+	tn, err := c.P.LookupType(ifaceSpec)
+	if err != nil {
+		c.Undischarged(rule, "anchor:"+short(ifaceSpec), err.Error())
+		return nil
+	}
+	it, ok := tn.Type().Underlying().(*types.Interface)
+	if !ok {
+		c.Undischarged(rule, "anchor:"+short(ifaceSpec), "not an interface")
+		return nil
+	}
+	var out []*types.Func
+	for i := 0; i < it.NumMethods(); i++ {
+		if ens.Glob(glob, it.Method(i).Name()) {
+			out = append(out, it.Method(i))
+		}
+	}
+	return out
 }
